@@ -40,6 +40,12 @@ for kind in KINDS:
         if kind[0].startswith('ike-init') and ck.quick:
             b = dict(dup=1, drop=1, tick=0, old=0)        # the initial exchanges are four messages long: keep the quick tier small
         SCEN.append(dict(kind=kind[0], config=kind[1], start=kind[2], trigger=kind[3], role=role, budget=b))
+# an IKE_SA rekey by either end followed by an exchange on the NEW IKE_SA, started by either end (no faults: the subject is the
+# header of what is sent on an IKE_SA whose original initiator is the end that rekeyed)
+for role in ('A', 'B'):
+    for second in ('acquire-A', 'acquire-B'):
+        SCEN.append(dict(kind='rekey-ike+new-child:%s' % second[-1], config='match', start='est', trigger=('due', 'rekey_ike'), role=role,
+                         second=('acquire', 0, 0), second_role=second[-1], budget=dict(dup=0, drop=0, tick=0, old=0, trig2=1)))
 if not ck.quick:
     # two triggers (second exchange follows the first: IDs keep counting), fewer faults
     for kind in KINDS[1:7]:
@@ -73,6 +79,11 @@ def build(sc, cls=None):
     else:
         w = S.established(confs, cls=cls)
         w.sent_log, w.recv_log = [], []
+        # who set the first IKE_SA up is known by construction (S.established lets A initiate), not from the daemons' flags
+        w.roles0 = {bytes(w.endpoints['A'].controller.ike_sas[0].my_spi): ('i', 'A'),
+                    bytes(w.endpoints['B'].controller.ike_sas[0].my_spi): ('r', 'B')}
+        # ... and so is how many requests each end has sent on it (the initiator two: IKE_SA_INIT and IKE_AUTH)
+        w.sent0 = {('A', bytes(w.endpoints['A'].controller.ike_sas[0].my_spi)): 2, ('B', bytes(w.endpoints['B'].controller.ike_sas[0].my_spi)): 0}
         w.step(_trigger_event(w, sc['role'], sc['trigger']))
     w.history = []
     w.budget = dict(sc['budget'])
@@ -97,7 +108,7 @@ def enabled(w):
                 seen.add(d.data)
                 evs.append(('redeliver', i))
     if b.get('trig2', 0) > 0:
-        for name in ('A',):
+        for name in (SECOND_ROLE.get('role', 'A'),):
             sa = w.endpoints[name].controller.ike_sas
             if sa and int(sa[0].state) in P.ESTABLISHED_RANGE:
                 evs.append(('acquire', name, 0, 0))
@@ -269,6 +280,34 @@ def m_win(pre, ev, post):
 C.EXCH_NAMES = {34: 'INIT', 35: 'AUTH', 36: 'CCSA', 37: 'INFO'}
 
 
+SECOND_ROLE = {}
+
+
+def roles_from_history(world):
+    """IKE SPI -> ('i' | 'r', endpoint): who is the ORIGINAL INITIATOR of each IKE_SA, read off the exchanges on the wire and not
+    off the daemons' own flags: the sender of the IKE_SA_INIT request owns the initiator SPI, the sender of the response the
+    responder SPI; for an IKE_SA created by rekey the initiator SPI is the one in the SA payload of the CREATE_CHILD_SA
+    request and belongs to its sender (RFC 7296 2.8: that end is the original initiator of the new IKE_SA), the responder
+    SPI the one in the SA payload of the response"""
+    born = dict(getattr(world, 'roles0', {}))
+    for d in world.sent_log:
+        desc = d.desc
+        if desc[0] in ('raw', 'enc') or len(desc) < 8:
+            continue
+        is_resp = bool(d.data[19] & 0x20)
+        if d.data[18] == 34:
+            spi = d.data[8:16] if is_resp else d.data[0:8]
+            if spi != b'\0' * 8:
+                born.setdefault(bytes(spi), ('r' if is_resp else 'i', d.sender))
+        elif d.data[18] == 36:
+            for p in desc[7]:
+                if p[0] == 'SA':
+                    for prop in p[1]:
+                        if prop[0] == 1 and len(prop[1]) == 8:
+                            born.setdefault(bytes(prop[1]), ('r' if is_resp else 'i', d.sender))
+    return born
+
+
 def m_emit(pre, ev, post):
     """emission side: version 2.0, SPIs, flags, exchange type of the exchange, consecutive request IDs, never two
     outstanding"""
@@ -303,6 +342,15 @@ def m_emit(pre, ev, post):
         if am_initiator != bool(flags & 0x08) or am_initiator != bool(owner.is_initiator):
             yield ('M-emit', 'initiator-flag:%s' % kind, 'I flag %d but sender %s original initiator' % (
                 bool(flags & 0x08), 'is' if owner.is_initiator else 'is not'))
+        role = roles_from_history(post).get(bytes(owner.my_spi))
+        if role is not None and role[1] == x.sender:
+            COVER['emitted:role-known-from-history'] += 1
+            if (role[0] == 'i') != bool(flags & 0x08) or (role[0] == 'i') != (bytes(owner.my_spi) == spi_i):
+                yield ('M-emit', 'initiator-flag-vs-history:%s' % kind, 'the exchanges on the wire make %s the original %s of the '
+                       'IKE_SA with its SPI %s (it %s the exchange that created it); it emits I flag %d with its SPI in the %s '
+                       'SPI field' % (x.sender, 'initiator' if role[0] == 'i' else 'responder', owner.my_spi.hex(),
+                                      'started' if role[0] == 'i' else 'answered', bool(flags & 0x08),
+                                      'initiator' if bytes(owner.my_spi) == spi_i else 'responder'))
         peer = spi_r if am_initiator else spi_i
         if peer != bytes(owner.peer_spi) and not (exch == 34 and peer == b'\0' * 8):
             yield ('M-emit', 'peer-spi:%s' % kind, 'peer SPI field %s, IKE_SA has %s' % (peer.hex(), owner.peer_spi.hex()))
@@ -320,7 +368,7 @@ def m_emit(pre, ev, post):
                 COVER['emitted:retransmission'] += 1
                 continue
             prev_ids = [int.from_bytes(y.data[20:24], 'big') for y in prev]
-            top = max(prev_ids) if prev_ids else -1
+            top = max(prev_ids) if prev_ids else getattr(post, 'sent0', {}).get((x.sender, bytes(owner.my_spi)), 0) - 1
             if exch == 34:
                 if mid != 0:
                     yield ('M-emit', 'init-id', 'IKE_SA_INIT request with ID %d' % mid)
@@ -330,7 +378,8 @@ def m_emit(pre, ev, post):
             elif mid != top + 1 and not (mid == 0 and top == -1):
                 # (an IKE_SA created by rekey starts again at 0; the initial IKE_SA continues after INIT/AUTH)
                 yield ('M-emit', 'non-consecutive:%s' % kind, 'new request ID %d after highest ID %d' % (mid, top))
-            if exch != 34 and mid > 0:
+            if exch != 34 and mid > 0 and mid - 1 >= getattr(post, 'sent0', {}).get((x.sender, bytes(owner.my_spi)), 0):
+                # (the request before this one was sent while the logs were kept: its response must have been delivered)
                 got = [r for r in post.recv_log if r.dst == x.src and r.data[19] & 0x20 and r.data[0:8] == spi_i
                        and int.from_bytes(r.data[20:24], 'big') == mid - 1]
                 if not got:
@@ -343,6 +392,7 @@ MONITORS = [m_win, m_emit]
 
 def run(i):
     sc = SCEN[i]
+    SECOND_ROLE['role'] = sc.get('second_role', 'A')
     ex = Explorer(lambda: build(sc), enabled, apply_event, monitors=MONITORS, extra_fn=extra,
                   abstraction_checks=10 if ck.quick else 40, replay_every=100 if ck.quick else 400,
                   max_states=30000 if ck.quick else 400000, label='%s/%s' % (sc['kind'], sc['role']), cover=COVER,
